@@ -58,6 +58,7 @@ def actualcall_routing_rule(prog, run, rid):
             "MockSupport::callIsIgnored": lambda *a_: ig, "MockSupport::createActualCall": h("create", 4100), "MockCheckedActualCall::withName": h("withName", 4100),
             "MockIgnoredActualCall::instance": h("ignoredInstance", 1), "MockActualCallTrace::instance": h("traceInstance", 2), "MockActualCallTrace::withName": h("traceWithName", 2)})
         ev.pass_object = True
+        ev.optional_stubs = {"MockSupport::callIsIgnored"}      # (ignoreOtherCalls_ and hasExpectationWithName are modelled as well)
         try:
             ev.run_blocks(ac.entry, max_steps=400)
         except Unknown as u:
